@@ -198,6 +198,10 @@ class Sym:
     def kind(self):
         return kind_of_sort(self.e.sort())
 
+    @property
+    def ndim(self):
+        return 0
+
     def __repr__(self):
         s = str(self.e)
         return "Sym(%s)" % (s if len(s) < 200 else s[:200] + "...")
